@@ -171,4 +171,51 @@ def handleGameF {σ ε} (e : Events σ ε) : Nat → List Pkt → σ → σ × E
 def handleGame {σ ε} (e : Events σ ε) (ps : List Pkt) (st : σ) : σ × End ε :=
   handleGameF e (ps.length + 1) ps st
 
+/-! ### resumed runs
+
+  `HandleGame` returns at the first error. A `PacketHandlerError` is not fatal: callers (examples/minimal) call
+  `HandleGame` again on the same client. What the next call sees is what the connection's receive queue still
+  holds. `handleGameR` is `handleGameF` that also returns those remaining packets:
+
+  * a failing handler on a plain packet: everything after that packet remains;
+  * a failing handler INSIDE a bundle: `handleBundlePackets` had already pulled the whole bundle (and its closing
+    delimiter) off the queue into a slice LOCAL to that call, so the packets of the bundle after the failing one are
+    dropped — never dispatched — and what remains is what follows the closing delimiter; the next call starts
+    outside any bundle with a fresh, empty slice;
+  * the bundle limit: the `bundleLimit` packets read are dropped, what follows them remains;
+  * a read error: nothing remains (and every later call returns the read error again).
+-/
+
+def handleGameR {σ ε} (e : Events σ ε) : Nat → List Pkt → σ → σ × End ε × List Pkt
+  | 0, ps, st => (st, .readErr, ps)
+  | _ + 1, [], st => (st, .readErr, [])
+  | fuel + 1, p :: ps, st =>
+    if p.id = bundleDelimiter then
+      match collect bundleLimit [] ps with
+      | .readErr => (st, .readErr, [])
+      | .limit => (st, .bundleLimit, ps.drop bundleLimit)
+      | .closed inner rest =>
+        match handleAll e inner st with
+        | (st', some x) => (st', x, rest)
+        | (st', none) => handleGameR e fuel rest st'
+    else
+      match handlePacket e p st with
+      | (st', some x) => (st', x, ps)
+      | (st', none) => handleGameR e fuel ps st'
+
+/-- one `HandleGame` call and what it leaves in the queue -/
+def handleGameRest {σ ε} (e : Events σ ε) (ps : List Pkt) (st : σ) : σ × End ε × List Pkt :=
+  handleGameR e (ps.length + 1) ps st
+
+/-- the caller's loop: call `HandleGame`, and call it again (at most `n` calls in all) as long as it returned a
+    handler's error; the results of the calls in order -/
+def resume {σ ε} (e : Events σ ε) : Nat → List Pkt → σ → σ × List (End ε)
+  | 0, _, st => (st, [])
+  | n + 1, ps, st =>
+    match handleGameRest e ps st with
+    | (st', .handler id x, rest) =>
+      let (st'', xs) := resume e n rest st'
+      (st'', .handler id x :: xs)
+    | (st', x, _) => (st', [x])
+
 end GoMC.Model.Dispatch
